@@ -4,7 +4,9 @@ import HappyProofs.C18.StoreRefine
 import HappyProofs.C18.Exchange
 import HappyProofs.C18.StoreDeliver
 import HappyProofs.C18.StoreGossip
+import HappyProofs.C18.StoreJudge2
 import HappyProofs.C18.KClock
+import HappyProofs.C18.ClockTrace
 import HappyModel.C18.Spec
 /-!
 # C18 — property theorems
@@ -138,6 +140,97 @@ example :
     k.log = [[(1, 2), (0, 1)], [(0, 1)], [(1, 1)]] ∧
     KVec.happenedBefore [(0, 1)] [(1, 2), (0, 1)] = true ∧
     KVec.concurrent [(0, 1)] [(1, 1)] = true := by decide
+
+/-! ### the clocks judge on the model's own transcript -/
+
+/-- what the model reports for event `i` of a history: the three timestamps of the record and the
+    dict clocks' own `happened_before` / `is_concurrent` verdicts against every event (oldest first) -/
+def modelClockObs (mem : Nat → List Nat) (es : List Ev) (i : Nat) : Option Obs :=
+  let logR := (run {} es).log.reverse
+  let klogR := (krun (KSt.init mem) es).log.reverse
+  match logR[i]?, klogR[i]? with
+  | some r, some kb =>
+    some ⟨r.L, r.V, r.H, klogR.map (·.happenedBefore kb), klogR.map (·.concurrent kb)⟩
+  | _, _ => none
+
+theorem judgePair_model (es : List Ev) (ra rb : Rec) (ha : ra ∈ (run {} es).log)
+    (hb : rb ∈ (run {} es).log) (ka kb : KVec) (va : VEq ka ra.V) (vb : VEq kb rb.V)
+    (KL : List KVec) (hka : KL[ra.id]? = some ka) (hA cA : List Bool) :
+    judgePair ra rb ⟨ra.L, ra.V, ra.H, hA, cA⟩
+      ⟨rb.L, rb.V, rb.H, KL.map (·.happenedBefore kb), KL.map (·.concurrent kb)⟩ = none := by
+  by_cases hne : ra.id = rb.id
+  · simp [judgePair, hne]
+  · have hne' : ¬ rb.id = ra.id := fun e => hne e.symm
+    have e3 : vcHappenedBefore ra.V rb.V = decide (ra.id ∈ rb.K) := by
+      rw [Bool.eq_iff_iff, vector_strict_iff_hb es ra rb ha hb]
+      simp [HB, hne]
+    have e4 : vcHappenedBefore rb.V ra.V = decide (rb.id ∈ ra.K) := by
+      rw [Bool.eq_iff_iff, vector_strict_iff_hb es rb ra hb ha]
+      simp [HB, hne']
+    have e1 : ka.happenedBefore kb = decide (ra.id ∈ rb.K) := by
+      rw [KVec.happenedBefore_eq_dense ka kb ra.V rb.V va vb, e3]
+    have e2 : kb.happenedBefore ka = decide (rb.id ∈ ra.K) := by
+      rw [KVec.happenedBefore_eq_dense kb ka rb.V ra.V vb va, e4]
+    have hidx1 : (KL.map (·.happenedBefore kb))[ra.id]? = some (decide (ra.id ∈ rb.K)) := by
+      simp [List.getElem?_map, hka, e1]
+    have hidx2 : (KL.map (·.concurrent kb))[ra.id]? =
+        some (!decide (ra.id ∈ rb.K) && !decide (rb.id ∈ ra.K)) := by
+      simp [List.getElem?_map, hka, KVec.concurrent, e1, e2]
+    by_cases hp : ra.id ∈ rb.K
+    · have hL := lamport_hb es ra rb ha hb ⟨hp, hne⟩
+      have hH := hlc_hb es ra rb ha hb ⟨hp, hne⟩
+      have hH' : HTs.ltb ra.H rb.H = true := by
+        simp only [HTs.lt] at hH
+        simp only [HTs.ltb, Bool.or_eq_true, Bool.and_eq_true, decide_eq_true_eq, beq_iff_eq]
+        exact hH
+      have hf : rb.id ∉ ra.K := by
+        intro hq
+        have inv := (inv_run es).1
+        have l1 := (inv.idLog rb hb).2 ra.id hp
+        have l2 := (inv.idLog ra ha).2 rb.id hq
+        exact hne (Nat.le_antisymm l1 l2)
+      simp [judgePair, hne, hp, hL, hH', e3, hidx1, hidx2, hf]
+    · simp [judgePair, hne, hp, e3, hidx1, hidx2]
+
+/-- the clocks judge accepts the model's own transcript: for every membership assignment and every
+    history, all clauses (Lamport, HLC, vector order on the reported vectors, the clocks' own
+    `happened_before` and `is_concurrent` verdicts) hold of what the model reports -/
+theorem clocks_trace_satisfies_spec (mem : Nat → List Nat) (es : List Ev) :
+    judgeClocks (run {} es).log.reverse (modelClockObs mem es) = none := by
+  obtain ⟨P, z⟩ := zinv_run es {} (KSt.init mem) [] (zinv_init mem) (ksim_init mem)
+  have hlog : (run {} es).log.reverse = P.map (·.1) := by rw [z.log]; simp
+  have hklog : (krun (KSt.init mem) es).log.reverse = P.map (·.2) := by rw [z.klog]; simp
+  have hfind : ∀ r ∈ P.map (·.1), ∃ kv, P[r.id]? = some (r, kv) := by
+    intro r hr
+    obtain ⟨⟨r', kv⟩, hm, rfl⟩ := List.mem_map.mp hr
+    obtain ⟨i, hi⟩ := List.getElem?_of_mem hm
+    have := (z.pos i r' kv hi).1
+    exact ⟨kv, by simp only; rw [this]; exact hi⟩
+  have hobs : ∀ (r : Rec) (kv : KVec), P[r.id]? = some (r, kv) →
+      modelClockObs mem es r.id =
+        some ⟨r.L, r.V, r.H, (P.map (·.2)).map (·.happenedBefore kv), (P.map (·.2)).map (·.concurrent kv)⟩ := by
+    intro r kv h
+    simp [modelClockObs, hlog, hklog, List.getElem?_map, h]
+  have hmem : ∀ r ∈ P.map (·.1), r ∈ (run {} es).log := by
+    intro r hr
+    rw [← hlog] at hr
+    exact List.mem_reverse.mp hr
+  unfold judgeClocks
+  rw [hlog, List.findSome?_eq_none_iff]
+  intro ra hra
+  rw [List.findSome?_eq_none_iff]
+  intro rb hrb
+  obtain ⟨ka, hka⟩ := hfind ra hra
+  obtain ⟨kb, hkb⟩ := hfind rb hrb
+  rw [hobs ra ka hka, hobs rb kb hkb]
+  simp only
+  exact judgePair_model es ra rb (hmem ra hra) (hmem rb hrb) ka kb (z.pos _ _ _ hka).2
+    (z.pos _ _ _ hkb).2 (P.map (·.2)) (by simp [List.getElem?_map, hka]) _ _
+
+/-- non-vacuity: the model's observations for a history with a receive under self-only membership -/
+example :
+    (modelClockObs (fun n => [n]) [.loc 1 0, .send 0 0 5, .recv 1 0 2] 2).map (fun o => (o.L, o.V, o.hbIn, o.ccIn))
+      = some (2, [1, 2], [true, true, false], [false, false, true]) := by decide
 
 /-! ### CRDT merge laws -/
 
@@ -441,6 +534,138 @@ example :
     ((sysAt (st.step .repaired .pn (.dl 0)).sys 1).rep 1).pn.value = -2 ∧
     ((sysAt (st.step .repaired .pn (.dl 0)).sys 0).rep 1).pn.value = 6 ∧
     ((sysAt (st.step .repaired .pn (.dl 0)).sys 2).rep 1).pn.value = 4 := by decide
+
+/-! #### the store judge on the model's own transcript
+
+`traceObs` (HappyModel/C18/StoreTrace.lean) is the judge-visible part of what `Driver.runStore`
+prints: per step the messages handed to the network and the values the acting stores report.
+Fed with it, the judge's bookkeeping (`JSt.advance`: what every store and every message has
+received, reconstructed from the script and the observed messages only) is exactly the knowledge of
+the model's replicas, after every step of every script — ticks, deliveries in any order, lossless
+rounds — and every value the model reports passes the judge's value clause. -/
+
+theorem jinv_run (kind : Kind) {n : Nat} (steps : List SStep) :
+    ∀ {j : JSt} {st : SSt} {ops : List (Nat × XOp)}, JInv n j st.p ops →
+    JInv n (advanceAll kind n j (traceObs kind st steps)) (SSt.run .repaired kind st steps).p
+      (ops ++ PSt.ops .repaired kind st.p steps) := by
+  induction steps with
+  | nil => intro j st ops h; simpa [advanceAll, traceObs, SSt.run, PSt.ops] using h
+  | cons x xs ih =>
+    intro j st ops h
+    have h1 := jinv_step kind h x ((st.p.actors x).flatMap (storeObs (st.step .repaired kind x)))
+    have := ih (j := j.advance kind n (stepObs kind st x)) (st := st.step .repaired kind x) h1
+    have hp : (st.step .repaired kind x).p = (st.p.step .repaired kind x).1 := rfl
+    rw [hp] at this
+    simpa [advanceAll, traceObs, SSt.run, PSt.ops, List.append_assoc, hp] using this
+
+/-- the judge, reading the model's transcript, attributes to every store and every message in
+    flight exactly the updates the model's replica has received -/
+theorem store_judge_knows_model (kind : Kind) (n : Nat) (peers : List (List Nat))
+    (steps : List SStep) (k : Nat) :
+    specAt (advanceAll kind n {} (traceObs kind (SSt.init n peers) steps)).spec k =
+      SpecSys.run {} (storeOps kind n peers steps k) := by
+  have h0 : JInv n {} (SSt.init n peers).p [] :=
+    ⟨rfl, pinv_init n peers, fun k => by simp [specAt, SpecSys.run, keyOps], rfl⟩
+  have := (jinv_run kind steps h0).spec k
+  simpa [storeOps, SSt.init] using this
+
+theorem elemsOf_contains (s : ORSet) (x : Nat) : (elemsOf s).contains x = s.has x := by
+  rw [Bool.eq_iff_iff, ORSet.has_iff]
+  simp only [List.contains_eq_mem, decide_eq_true_eq, elemsOf, List.mem_eraseDups, mem_sortNat,
+    List.mem_map]
+  constructor
+  · rintro ⟨⟨y, t⟩, h, rfl⟩; exact ⟨t, h⟩
+  · rintro ⟨t, h⟩; exact ⟨(x, t), h, rfl⟩
+
+/-- a replica's reported value passes the value clause of the judge against the specification run
+    of the same operations -/
+theorem judgeValue_replica (kind : Kind) (ops : List COp) (a : Nat) (mentioned : List Nat) :
+    judgeValue kind (SpecSys.run {} ops) a (kobsOf ((Sys.run Sys.init ops).rep a)) mentioned = none := by
+  cases kind with
+  | g => simp [judgeValue, kobsOf, counter_value_spec]
+  | pn => simp [judgeValue, kobsOf, counter_value_spec]
+  | lww => simp [judgeValue, kobsOf, lww_spec]
+  | os =>
+    simp only [judgeValue, kobsOf]
+    have : (mentioned ++ elemsOf ((Sys.run Sys.init ops).rep a).os).find?
+        (fun x => (SpecSys.run {} ops).orHas a x != (elemsOf ((Sys.run Sys.init ops).rep a).os).contains x)
+        = none := by
+      rw [List.find?_eq_none]
+      intro x _
+      have h1 := elemsOf_contains ((Sys.run Sys.init ops).rep a).os x
+      have h2 := orset_spec ops a x
+      rw [h1, h2]
+      simp
+    rw [this]
+
+/-- value clause: in every step of every script, every value the model's acting stores report is
+    accepted by the judge (whose state is the one it reached by reading the transcript so far) -/
+theorem store_trace_values_accepted (kind : Kind) (n : Nat) (peers : List (List Nat))
+    (pre : List SStep) (x : SStep) (mentioned : List Nat) :
+    let st := SSt.run .repaired kind (SSt.init n peers) pre
+    let j := advanceAll kind n {} (traceObs kind (SSt.init n peers) pre)
+    ∀ o ∈ (stepObs kind st x).obs,
+      judgeValue kind (specAt (j.advance kind n (stepObs kind st x)).spec o.2.1) o.1 o.2.2 mentioned
+        = none := by
+  intro st j o ho
+  have hk : ∀ k, specAt (j.advance kind n (stepObs kind st x)).spec k =
+      SpecSys.run {} (storeOps kind n peers (pre ++ [x]) k) := by
+    intro k
+    have := store_judge_knows_model kind n peers (pre ++ [x]) k
+    rw [← this]
+    have hadv : ∀ (l : List SStep) (j0 : JSt) (s0 : SSt),
+        advanceAll kind n j0 (traceObs kind s0 (l ++ [x])) =
+          (advanceAll kind n j0 (traceObs kind s0 l)).advance kind n
+            (stepObs kind (SSt.run .repaired kind s0 l) x) := by
+      intro l
+      induction l with
+      | nil => intro j0 s0; simp [traceObs, advanceAll, SSt.run]
+      | cons y ys ih => intro j0 s0; simp [traceObs, advanceAll, SSt.run, ih]
+    rw [hadv]
+  simp only [stepObs, List.mem_flatMap, storeObs, List.mem_map] at ho
+  obtain ⟨a, _, kn, _, rfl⟩ := ho
+  simp only
+  rw [hk]
+  have hrep : (sysAt (st.step .repaired kind x).sys kn.1).rep a =
+      (Sys.run Sys.init (storeOps kind n peers (pre ++ [x]) kn.1)).rep a := by
+    have := store_refines_replicas kind n peers (pre ++ [x]) a kn.1
+    unfold storeRep at this
+    rw [← this]
+    have hrun : ∀ (l : List SStep) (s0 : SSt),
+        SSt.run .repaired kind s0 (l ++ [x]) = (SSt.run .repaired kind s0 l).step .repaired kind x := by
+      intro l
+      induction l with
+      | nil => intro s0; simp [SSt.run]
+      | cons y ys ih => intro s0; simp [SSt.run, ih]
+    rw [hrun]
+  rw [hrep]
+  exact judgeValue_replica kind _ a mentioned
+
+/-- the full statement (not proved): the store judge returns no violation on the model's own
+    transcript — all clauses, the final liveness clause included. Well-formed scripts only: stores
+    named in the script and in the peer lists are `< n`, keys are `< nkeys`. -/
+def store_trace_satisfies_spec_full : Prop :=
+  ∀ (kind : Kind) (n nkeys : Nat) (peers : List (List Nat)) (steps : List SStep),
+    (∀ ps ∈ peers, ∀ q ∈ ps, q < n) →
+    (∀ x ∈ steps, match x with
+      | .w s key _ => s < n ∧ key < nkeys | .tick s _ => s < n | .round s _ => s < n | .dl _ => True) →
+    judgeStore kind n nkeys peers (traceObs kind (SSt.init n peers) steps)
+      ((List.range n).flatMap (storeObs (SSt.run .repaired kind (SSt.init n peers) steps))) = none
+
+/-- the proved part: knowledge reconstruction and value clause, for every script (no
+    well-formedness needed). Gap: the clauses `store/key/missing-after-update`,
+    `store/gossip/state-omits-known-key` and the final clause on the model's transcript. -/
+theorem store_trace_satisfies_spec_partial (kind : Kind) (n : Nat) (peers : List (List Nat))
+    (pre : List SStep) (x : SStep) (mentioned : List Nat) :
+    (∀ k, specAt (advanceAll kind n {} (traceObs kind (SSt.init n peers) pre)).spec k =
+      SpecSys.run {} (storeOps kind n peers pre k)) ∧
+    (∀ o ∈ (stepObs kind (SSt.run .repaired kind (SSt.init n peers) pre) x).obs,
+      judgeValue kind
+        (specAt ((advanceAll kind n {} (traceObs kind (SSt.init n peers) pre)).advance kind n
+          (stepObs kind (SSt.run .repaired kind (SSt.init n peers) pre) x)).spec o.2.1)
+        o.1 o.2.2 mentioned = none) :=
+  ⟨fun k => store_judge_knows_model kind n peers pre k,
+   store_trace_values_accepted kind n peers pre x mentioned⟩
 
 /-! #### convergence after exchanging states, any order, any duplication -/
 
